@@ -14,7 +14,7 @@ import itertools
 import os
 import re
 
-from .. import core, build
+from .. import core, build, drv
 from ..oracles import c04_inputs as gen
 
 PROP = "C04"
@@ -197,15 +197,31 @@ def execute(d, inp, cuts, entries):
 REFS = {}          # input key -> observation of the default execution (filled before the pool forks; lazily otherwise)
 
 
+def crash_info(d, e):
+    log = getattr(d, "dead_log", None) or []
+    kind = "hang" if isinstance(e, drv.DrvTimeout) else "crash"
+    t = log[-1].split("\t") if log else []
+    fn = t[3] if len(t) > 3 and t[0] == "call" else "?"
+    ncalls = sum(1 for l in log if l.startswith("call") and l.split("\t")[3] in ("RunString", "RunFile", "RunAccumulated"))
+    return {"crash": kind, "fn": fn, "call_no": ncalls, "msg": "%s %s" % (e, getattr(e, "stderr", "")[-300:]), "script": "\n".join(log) + "\n"}
+
+
+def safe_execute(d, inp, cuts, entries):
+    try:
+        return execute(d, inp, cuts, entries)
+    except (drv.DrvDied, drv.DrvTimeout) as e:
+        return crash_info(d, e)
+
+
 def reference(d, inp):
     key = inp["key"]
     if key not in REFS:
-        REFS[key] = execute(d, inp, [], "S")
+        REFS[key] = safe_execute(d, inp, [], "S")
     return REFS[key]
 
 
 def error_free(obs):
-    return all(rc == 0 for rc in obs["rcs"]) and obs["rc_dump"] == 0 and not obs["err"]
+    return "crash" not in obs and all(rc == 0 for rc in obs["rcs"]) and obs["rc_dump"] == 0 and not obs["err"]
 
 
 # ------------------------------------------------------------------ oracle
@@ -227,7 +243,51 @@ def dump_context(lines, i):
     return blk, opt
 
 
-def compare(ref, obs, tag, problems):
+CLASSES = ["numbers agree to 1e-6 relative but not bitwise", "numbers differ by more than 1e-6 relative", "not numeric"]
+
+
+def diff_class(x, y):
+    """0: both numbers, relative difference <= 1e-6; 1: numbers further apart; 2: anything else.  Only used to word the
+    fingerprint - every bitwise difference is a mismatch."""
+    try:
+        fx, fy = float(x), float(y)
+    except (TypeError, ValueError):
+        return 2
+    if fx != fx or fy != fy:
+        return 2
+    return 0 if abs(fx - fy) <= 1e-6 * max(abs(fx), abs(fy)) else 1
+
+
+def inverse_columns(text):
+    """Selected-output headings that an INVERSE_MODELING block of this input produces (manual, SELECTED_OUTPUT
+    -inverse_modeling: Sum_resid, Sum_Delta/U, MaxFracErr, Soln_n[_min|_max], phase[_min|_max])."""
+    cols = set()
+    inblk = opt = None
+    for ln in text.splitlines():
+        t = ln.split("#")[0].split()
+        if not t:
+            continue
+        if not ln.startswith((" ", "\t")) and re.match(r"^[A-Za-z_]+$", t[0]) and not t[0].startswith("-"):
+            inblk = t[0].upper().startswith("INVERSE_MODEL")
+            opt = None
+            continue
+        if not inblk:
+            continue
+        if t[0].startswith("-"):
+            opt = t[0].lstrip("-").lower()
+            t = t[1:]
+        if opt and opt.startswith("sol"):
+            for x in t:
+                if x.isdigit():
+                    cols.update(["Soln_%s" % x, "Soln_%s_min" % x, "Soln_%s_max" % x])
+        elif opt and opt.startswith("ph") and t:
+            cols.update([t[0], t[0] + "_min", t[0] + "_max"])
+    if cols:
+        cols.update(["Sum_resid", "Sum_Delta/U", "MaxFracErr"])
+    return cols
+
+
+def compare(ref, obs, tag, problems, inv_cols=()):
     # (d) return codes
     bad = [i for i, rc in enumerate(obs["rcs"]) if rc != 0]
     if bad or obs["rc_dump"] != 0:
@@ -254,18 +314,30 @@ def compare(ref, obs, tag, problems):
         i = next(i for i, (x, y) in enumerate(zip(a, b)) if x != y)
         da, db = dict(map(tuple, a[i])), dict(map(tuple, b[i]))
         cols = sorted(h for h in set(da) | set(db) if da.get(h) != db.get(h))
-        kind = "value" if set(da) == set(db) else "columns"
-        problems.append(("rows: %s differ col=%s" % (kind, cols[0]),
-                         "user %s data row %d: columns %s: one call %s, this execution %s (%s)" % (
-                             u, i, cols[:6], [da.get(h) for h in cols[:6]], [db.get(h) for h in cols[:6]], tag)))
+        if set(da) != set(db):
+            fp = "rows: columns of a data row differ col=%s" % cols[0]
+            if inv_cols and all(h in inv_cols for h in cols) and all(db.get(h) is None for h in cols):
+                # the values of an inverse model are appended to a row that is never finished (finding F3): within one
+                # call they end up in the next data row, across a call boundary they are dropped
+                fp = "rows: columns differ block=inverse_modeling unfinished-row-merge"
+        else:
+            cl = max(diff_class(da[h], db[h]) for h in cols)
+            fp = "rows: values differ (%s)" % CLASSES[cl] if cl == 0 else "rows: values differ (%s) col=%s" % (CLASSES[cl], cols[0])
+        problems.append((fp, "user %s data row %d: columns %s: one call %s, this execution %s (%s)" % (
+            u, i, cols[:6], [da.get(h) for h in cols[:6]], [db.get(h) for h in cols[:6]], tag)))
     # (b) final dump
     if ref["dump"] != obs["dump"]:
         la, lb = ref["dump"].split("\n"), obs["dump"].split("\n")
         i = next((i for i, (x, y) in enumerate(zip(la, lb)) if x != y), min(len(la), len(lb)))
         blk, opt = dump_context(la if i < len(la) else lb, min(i, len(la) - 1) if i < len(la) else i)
-        problems.append(("dump: final state differs at %s -%s" % (blk, opt),
-                         "final DUMP -all differs (%d vs %d lines), first at line %d: %r vs %r (%s)" % (
-                             len(la), len(lb), i, la[i][:120] if i < len(la) else None, lb[i][:120] if i < len(lb) else None, tag)))
+        cl = 2
+        if i < len(la) and i < len(lb):
+            ta, tb = la[i].split(), lb[i].split()
+            if len(ta) == len(tb):
+                cl = max(diff_class(x, y) for x, y in zip(ta, tb) if x != y)
+        fp = "dump: final state differs at %s (%s)" % (blk, CLASSES[cl]) if cl == 0 else "dump: final state differs at %s -%s (%s)" % (blk, opt, CLASSES[cl])
+        problems.append((fp, "final DUMP -all differs (%d vs %d lines), first at line %d: %r vs %r (%s)" % (
+            len(la), len(lb), i, la[i][:120] if i < len(la) else None, lb[i][:120] if i < len(lb) else None, tag)))
     # (c) components
     if ref["components"] != obs["components"]:
         problems.append(("components differ", "one call %s, this execution %s (%s)" % (ref["components"], obs["components"], tag)))
@@ -274,23 +346,40 @@ def compare(ref, obs, tag, problems):
 def run_case(case):
     d = core.get_drv("rel")
     inp = get_input(case["input"])
+    cuts, entries = case["cuts"], case["entries"]
+    tag = "input %s (%d simulations), cuts after simulations %s, entry points %s" % (case["input"], len(inp["sims"]), cuts, entries)
+    state = [core.sha(repr((case["input"], cuts, entries)))]
+    if not cuts and entries == "S":
+        # the default execution itself (only enumerated as a case when it crashed in phase 1): a crash in its second
+        # call (the extra DUMP call) is a failure of a two-call history; a crash in the first call is not C04's business
+        obs = safe_execute(d, inp, [], "S")
+        pr = []
+        if "crash" in obs and obs["call_no"] >= 2:
+            pr.append(("%s in the extra DUMP call after a one-call run" % obs["crash"], "%s (%s)" % (obs["msg"], tag)))
+        return {"case": case, "problems": pr, "ops": 2, "states": state, "outcome": obs.get("crash", "default"),
+                "not_completed": "crash" in obs, "script": obs.get("script") or d.script()}
     ref = reference(d, inp)
     if not error_free(ref):
         return {"case": case, "problems": [], "ops": 0, "not_completed": True, "outcome": "not-error-free",
                 "states": [], "script": ""}
-    cuts, entries = case["cuts"], case["entries"]
-    obs = execute(d, inp, cuts, entries)
+    obs = safe_execute(d, inp, cuts, entries)
+    if "crash" in obs:
+        # the one-call execution of the same text completed: a crash / hang of a split execution is a mismatch
+        return {"case": case, "problems": [("%s in %s of a split execution" % (obs["crash"], obs["fn"]), "%s in call %d: %s (%s)" % (
+                    obs["crash"], obs["call_no"], obs["msg"], tag))],
+                "ops": len(entries), "states": state, "outcome": obs["crash"], "script": obs["script"]}
     script = d.script()
     problems = []
-    tag = "input %s (%d simulations), cuts after simulations %s, entry points %s" % (case["input"], len(inp["sims"]), cuts, entries)
-    compare(ref, obs, tag, problems)
+    if "_invcols" not in inp:
+        inp["_invcols"] = inverse_columns(inp["text"])
+    compare(ref, obs, tag, problems, inp["_invcols"])
     seen, uniq = set(), []
     for p in problems:
         if p[0] not in seen:
             seen.add(p[0])
             uniq.append(p)
     return {"case": case, "problems": uniq, "ops": len(entries) + 1,
-            "states": [core.sha(repr((case["input"], cuts, entries)))],
+            "states": state,
             "outcome": core.sha(repr((sorted(obs["rows"].items()), obs["dump"], obs["components"], obs["rcs"]))),
             "script": script,
             "sample": {"case": case, "rcs": obs["rcs"], "data_rows": obs["nrows"], "dump_lines": obs["dump"].count("\n"),
@@ -301,7 +390,7 @@ def ref_case(key):
     """Phase 1: the default execution of one input (one RunString call)."""
     d = core.get_drv("rel")
     inp = get_input(key)
-    obs = execute(d, inp, [], "S")
+    obs = safe_execute(d, inp, [], "S")
     return key, obs, len(inp["sims"])
 
 
@@ -352,8 +441,10 @@ def run(tier):
         "simulation boundary = a physical input line consisting of END only (END inside INCLUDE$d files or after ';' is not a cut point)",
         "the simulation counter is the selected-output column headed 'sim' and the text 'after simulation N.' in RAW descriptions; nothing else is masked",
         "empty table cells are not data: a one-call table carries the union of the columns of all definitions of a user number",
-        "shipped examples run with SetSelectedOutputFileOn(1) (ex8 / ex20b INCLUDE$ the file their own SELECTED_OUTPUT wrote); cuts that separate such a "
-        "writer from its INCLUDE$ reader change the input text itself and are excluded",
+        "shipped examples run with SetSelectedOutputFileOn(1) (ex8 / ex20b INCLUDE$ the file their own SELECTED_OUTPUT wrote; without the file sink they "
+        "are not error-free); selected-output files are per-call artefacts (re-created at the start of every call), so cuts that separate such a writer "
+        "from its INCLUDE$ reader change the effective input text and are excluded (observed: ex8 cut after simulation 3 truncates Zn1e_4 -> 15 instead of 28 rows)",
+        "a crash / hang of a split execution, or of the extra DUMP call after a one-call run, counts as a mismatch (the one-call run of the same text completed)",
         "no constant of the implementation is used: the oracle is the one-RunString-call execution of the same text on a fresh instance",
     ]
     dl = core.Deadline(170 if tier == "quick" else 1750)
@@ -368,8 +459,15 @@ def run(tier):
         ev.traces += 1
         ev.transitions += 2
     pool.close()
+    crashed = [k for k in keys if "crash" in REFS[k]]
+    if any(REFS[k]["call_no"] < 2 for k in crashed):
+        raise SystemExit("C04 harness: one-call run crashed / hung (not a C04 matter): %s" % [(k, REFS[k]["msg"][:200]) for k in crashed if REFS[k]["call_no"] < 2][:3])
+    pool = core.Pool()
+    if crashed:
+        # the library died in the extra DUMP call that follows the one-call run: a two-call history; confirm and report (R3)
+        core.explore_cases([{"input": k, "cuts": [], "entries": "S"} for k in crashed], run_case, ev, findings, pool, chunksize=1)
     ok = [k for k in keys if error_free(REFS[k])]
-    notok = [k for k in keys if not error_free(REFS[k])]
+    notok = [k for k in keys if not error_free(REFS[k]) and k not in crashed]
     ev.not_completed += len(notok)
     ev.extra["inputs"] = {"total": len(keys), "error_free": len(ok), "not_error_free": len(notok),
                           "not_error_free_samples": [(k, (REFS[k]["err"].strip().splitlines() or ["?"])[0][:120]) for k in notok[:8]],
@@ -377,6 +475,10 @@ def run(tier):
                           "data_rows_in_references": sum(REFS[k]["nrows"] for k in ok),
                           "simulations_per_input": {str(n): sum(1 for k in ok if nsims[k] == n) for n in sorted(set(nsims.values()))}}
     ev.bound("default (one RunString call) execution of %d inputs" % len(keys), True, inputs=len(keys), error_free=len(ok))
+    pick = [k for k in ok if not k.startswith("gen:")][:2] + [k for k in ok if k.startswith("gen:")][-2:]
+    ev.extra["reference_samples"] = [{"input": k, "simulations": nsims[k], "return_codes": REFS[k]["rcs"], "data_rows": {u: len(r) for u, r in REFS[k]["rows"].items()},
+                                      "first_data_row": next((r[0] for r in REFS[k]["rows"].values() if r), None),
+                                      "dump_head": REFS[k]["dump"].split("\n")[:3], "components": REFS[k]["components"]} for k in pick]
     # vacuity guards (harness errors, exit 2)
     shipped = [k for k in keys if not k.startswith("gen:")]
     if any(k in notok for k in shipped):
@@ -391,7 +493,7 @@ def run(tier):
     # ---- phase 2: every non-default execution of every error-free input
     kmap = dict(pl)
     groups = [("shipped examples", [k for k in ok if not k.startswith("gen:")]), ("generated inputs", [k for k in ok if k.startswith("gen:")])]
-    pool = core.Pool()
+    n_exec = n_excl = 0
     for gname, gkeys in groups:
         cases = []
         for key in gkeys:
@@ -399,14 +501,18 @@ def run(tier):
                 if not cuts and entries == "S":
                     continue
                 if excluded(key, cuts):
+                    n_excl += 1
                     continue
                 cases.append({"input": key, "cuts": cuts, "entries": entries})
         cases.sort(key=lambda c: (n_deviations(c["cuts"], c["entries"]), len(get_input(c["input"])["text"])))
+        n_exec += len(cases)
         done = core.explore_cases(cases, run_case, ev, findings, pool, chunksize=4, deadline=dl) if not dl.passed() else False
         ev.bound("%s: %d inputs, %d executions (complete cut x entry-point space for n<=5 unless a deviation bound is listed)" % (
             gname, len(gkeys), len(cases)), done, executions=len(cases),
             deviation_bounds={k: kmap[k] for k in gkeys if kmap[k] is not None} if gname.startswith("shipped") else {})
     pool.close()
+    ev.extra["executions"] = {"lattice_points": n_exec + len(keys), "non_default_executions": n_exec, "default_executions": len(keys),
+                              "excluded_writer_reader_cuts": n_excl, "inputs_not_error_free": len(notok), "inputs_crashed_in_dump_call": len(crashed)}
     ev.extra["alphabet"] = {"entry_points": ["RunString", "RunFile", "AccumulateLine*+RunAccumulated"],
                             "cut_points": "every subset of the END boundaries",
                             "generated_blocks": gen.describe(), "generated_depth": gen.DEPTH[tier]}
